@@ -273,8 +273,12 @@ ShapeTable == IF EmitTable THEN [i \in DOMAIN AllShapes |-> Row(AllShapes[i])] E
 
 Decls  == <<"main", "lib", "deep">>                 \* main imports lib and deep, lib imports deep
 Sites  == <<"main", "lib">>
-Vias   == <<"direct", "helper", "foreign">>         \* API called at the site / by a helper of the site's
-                                                    \* package / by an exported helper of a dependency
+Vias   == <<"direct", "helper", "foreign", "closure">>   \* API called at the site / by a helper of the site's
+                                                    \* package / by an exported helper of a dependency / inside a
+                                                    \* function literal of the site that captures the value (function
+                                                    \* literals are not package members: checkFunction must descend
+                                                    \* into fun.AnonFuncs, and the captured value is an ssa.FreeVar -
+                                                    \* finding F62)
 Conss  == <<"value", "ptr", "slice", "variadic", "field", "iface-any", "iface-method", "array", "map",
             "iface-field-store", "convert">>
                                                     \* field: the value travels in a field of a struct that a helper
@@ -297,7 +301,7 @@ Imports(p, q) == p = q \/ (p = "main" /\ q \in {"lib", "deep"}) \/ (p = "lib" /\
 
 Applicable(c) ==
   /\ Imports(c.site, c.decl)                                  \* the site must be able to name the type
-  /\ (c.cons \in {"variadic", "field"} => c.via # "direct")   \* these flows need a helper function
+  /\ (c.cons \in {"variadic", "field"} => c.via \notin {"direct", "closure"})   \* these flows need a helper function
   /\ (c.api = "unmarshal" => c.cons \in {"value", "ptr", "iface-any"})       \* needs a pointer to one value
   /\ (c.tshape = "defined" => c.api \in {"typeof", "valueof"})  \* a defined int has no JSON keys
   /\ (c.cons = "iface-field-store" => c.api = "marshal" /\ c.tshape # "defined")   \* only marshalling looks inside the field
